@@ -15,7 +15,7 @@ from vlib.run import Result
 
 LEVEL = "exploration"
 RULE = (
-    "a plan = protocol version (quick 4, 8, 13, 14; thorough 4..14) and 1..6 send_packet calls started on a 10 ms grid to "
+    "a plan = protocol version (quick 4, 8, 13, 14 and an NCP reporting 15; thorough 4..16) and 1..6 send_packet calls started on a 10 ms grid to "
     "distinct devices: unicast plain / with source route / with extended timeout, IEEE-addressed to a known or unknown "
     "device, multicast, broadcast; per attempt an enqueue status {accepted, each of the three busy codes, refusals incl. "
     "undefined codes}; per request a confirmation plan {success, failure status, none, duplicate, before the enqueue reply, "
@@ -380,5 +380,5 @@ def _worker(ctx, job):
 
 def run(ctx):
     quick = ctx.tier == "quick"
-    versions = (4, 8, 13, 14) if quick else tuple(range(4, 15))
+    versions = (4, 8, 13, 14, 15) if quick else tuple(range(4, 17))
     ctx.parallel(_worker, [(100, versions)] * 16 if quick else [(12000, versions)] * 16)
